@@ -8,13 +8,15 @@ import vlib
 
 
 def regenerate(files):
-    """files: names of generated files (e.g. ["LeafWork.v"]) whose translation failures break the caller's tie.
+    """files: names of the generated files of the typed translations (e.g. ["LeafWork.v"]) that the caller's proofs depend
+    on: exactly these are re-translated (a check does not rewrite the generated files of other properties, so that runs
+    against different source trees do not disturb each other); the empty list = every generated file.
     Returns an error string (the proof step is then reported as broken) or None."""
     spec = importlib.util.spec_from_file_location("c2gallina", os.path.join(vlib.VERIF, "gen", "c2gallina.py"))
     mod = importlib.util.module_from_spec(spec)
     spec.loader.exec_module(mod)
     with vlib.Lock(os.path.join(vlib.COQ, ".lock")):
-        err = mod.main()
+        err = mod.main(None, list(files) if files else "all")
     if err:
         return "leaf translator failed (generated files not rewritten, tie broken): " + err
     errs = [getattr(mod, "LAST_ERRORS", {}).get(f) for f in files]
@@ -29,3 +31,19 @@ def explain(st, marker, theorem, what):
     if b and (marker in b or "leaf translator failed" in b):
         st["broken"] = "theorem %s no longer holds: %s.  %s" % (theorem, what, b)
     return st
+
+
+# generated files of the typed translations per property (the check of that property is the one that rewrites them)
+OWNED = {"C12": ["LeafWork.v"], "C19": ["LeafPopen.v"], "C16": ["LeafAvl.v"], "C20": ["LeafInotify.v"], "C10": ["LeafSignal.v"],
+         "C11": ["LeafWait.v"]}
+
+if __name__ == "__main__":
+    # `leafgen.py <property> ...`: re-translate the files these properties own from the tree named by VERIF_REPO (default
+    # /repo) -- used by gen/mt_mutants.py to put the generated files back right after a run against an edited scratch copy
+    import sys
+    for pr in sys.argv[1:]:
+        if pr in OWNED:
+            e = regenerate(OWNED[pr])
+            if e:
+                print(e)
+                sys.exit(1)
